@@ -318,6 +318,12 @@ class HU(common.Harness):
         import fast_diff_match_patch
 
         self.interp.stubs[fast_diff_match_patch.diff] = lambda a, b, **kw: list(self.ops)
+        import difflib
+
+        self.interp.stubs[difflib.SequenceMatcher] = lambda a=None, b=None, autojunk=True, **k: self
+
+    def get_opcodes(self):
+        return list(self.opcodes)
 
     def run(self):
         import bisect
@@ -326,6 +332,8 @@ class HU(common.Harness):
         la = z3.IntVal(0)
         lb = z3.IntVal(0)
         ops, script = [], []
+        self.opcodes = []
+        self.use_dmp = eng.choose([z3.Bool("use_dmp"), z3.Not(z3.Bool("use_dmp"))]) == 0
         prev_equal = None
         nblocks = 1 + eng.choose([z3.Int("nblocks") == j for j in range(1, self.K + 1)])
         for i in range(nblocks):
@@ -348,10 +356,11 @@ class HU(common.Harness):
                 eng.add(a >= 1, b >= 1)
                 ops.append(("-", SInt(a)))
                 ops.append(("+", SInt(b)))
+            self.opcodes.append((OPK[k], SInt(la), SInt(la + a), SInt(lb), SInt(lb + b)))
             la, lb = la + a, lb + b
             script.append((OPK[k], a, b))
         self.ops, self.script, self.la, self.lb = ops, script, la, lb
-        upd = self.interp.instantiate(self.AN.SpanUpdater, (OpaqueText(SInt(la)), OpaqueText(SInt(lb))), {})
+        upd = self.interp.instantiate(self.AN.SpanUpdater, (OpaqueText(SInt(la)), OpaqueText(SInt(lb))), {"use_dmp": self.use_dmp})
         o1, o2 = z3.Int("o1"), z3.Int("o2")
         eng.add(0 <= o1, o1 <= o2, o2 <= la)
         self.o = (o1, o2)
@@ -365,7 +374,7 @@ class HU(common.Harness):
         return r1, r2, rs, re_
 
     def witness(self, m):
-        return {"script": [(k, mval(m, a), mval(m, b)) for k, a, b in self.script], "o1": mval(m, self.o[0]), "o2": mval(m, self.o[1]), "side": self.side}
+        return {"script": [(k, mval(m, a), mval(m, b)) for k, a, b in self.script], "o1": mval(m, self.o[0]), "o2": mval(m, self.o[1]), "side": self.side, "use_dmp": self.use_dmp}
 
     def describe(self, kind, out):
         m = self.eng.path_model()
